@@ -610,6 +610,14 @@ func checkC19(p *Prog, r *Report) {
 				}
 			}
 		}
+		/* The dependency's side of the order, from its own source. */
+		gf, gerr := goxtermFact(p.Repo)
+		if nil != gerr {
+			rLock.Unproven("goxterm:lock-facts", token.NoPos, "the terminal package's locking could not be derived from its source: %s", gerr)
+		} else {
+			r.Note("%s", gf.Note)
+			r.Saw("package " + goxPath)
+		}
 		/* Does anything write to the terminal while holding wL? */
 		writesUnderLock := false
 		for _, fn := range p.Funcs() {
@@ -623,13 +631,20 @@ func checkC19(p *Prog, r *Report) {
 					return
 				}
 				for _, a := range callArgs(c) {
-					if typeIs(stripConv(a, false).Type(), "github.com/magisterquis/goxterm", "Terminal") {
-						writesUnderLock = true
+					if typeIs(stripConv(a, false).Type(), goxPath, "Terminal") {
+						/* A method of the terminal which takes its lock; anything
+						else handed the terminal counts too (it may call one). */
+						sc := c.StaticCallee()
+						if nil == gf || nil == sc || "Terminal" != recvTypeName(sc) || gf.Locking[sc.Name()] {
+							writesUnderLock = true
+						}
 					}
 				}
 			})
 		}
 		switch {
+		case nil != gf && !gf.CallbackUnderLock:
+			rLock.OK(fnName(cbFn)+":lock-order", cbFn.Pos(), "the terminal package does not hold its lock while calling the callback")
 		case !writesUnderLock:
 			rLock.OK(fnName(cbFn)+":lock-order", cbFn.Pos(), "nothing uses the terminal while holding Shell.wL")
 		case takes[cbFn]:
